@@ -675,7 +675,24 @@ func judge(s spec, outs []outcome, total map[string]int, out string, strict bool
 				}
 			case "reported":
 				anyReported = true
-				if oc.code != "PCORE_INVALID_CHARACTERS_IN_NAME" || validParts(key) {
+				located := false
+				if oc.code != "PCORE_INVALID_CHARACTERS_IN_NAME" {
+					// the name itself has no file, but an ANCESTOR may: a loader asked before the one that holds the definition
+					// (the parent loader of a module loader) finds nothing for the name and searches its parents — a defective
+					// file of an ancestor surfaces as the error of this lookup (cf. C15_ancestor_error), located as usual
+					clos, _ := o.closure(key)
+					if f, ok := clos[oc.file]; ok {
+						if code, line := o.defect(f, oc.file); code == oc.code && (code != "PARSE_ERROR" || line == oc.line) {
+							located = true
+							tags["def-ancestor-error"] = true
+							reportedOnce[oc.file] = true
+							if code == "PCORE_WRONG_DEFINITION" && oc.line == 0 {
+								note("misnamed-no-line", fmt.Sprintf("%s: the misnamed file %s is reported without a line", l.name, oc.file))
+							}
+						}
+					}
+				}
+				if !located && (oc.code != "PCORE_INVALID_CHARACTERS_IN_NAME" || validParts(key)) {
 					note("error-not-located", fmt.Sprintf("%s: %s for a name that has a definition and no file", l.name, oc.code))
 				}
 			}
